@@ -180,7 +180,7 @@ Lemma kabsch_Q U Vh : orth U -> orth Vh ->
 Proof.
   intros HU HV. unfold kabsch_rot. cbn [one NumR].
   rewrite !mtrans_mmul3, mtrans_diag3.
-  rewrite <- (mmul3_assoc Vh), <- (mmul3_assoc Vh). unfold orth in HV. rewrite HV, mmul3_id_l.
+  rewrite <- (mmul3_assoc Vh). unfold orth in HV. rewrite HV, mmul3_id_l.
   rewrite mmul3_assoc, (orth_left U HU). apply mmul3_id_r.
 Qed.
 Lemma kabsch_rot_rot U Vh : orth U -> orth Vh -> rot (kabsch_rot U Vh).
@@ -211,4 +211,455 @@ Lemma kabsch_trace_value M U S Vh : svd_ok M U S Vh ->
 Proof.
   intros (HU & HV & _ & HM). subst M. rewrite dotM_svd, (kabsch_Q U Vh HU HV), wtrace_diag.
   destruct S as [[s1 s2] s3]. al_unfold. ring.
+Qed.
+
+(* ---------------------------------------------------------------- svdtf: proper rotation *)
+Lemma absF_R (x : R) : absF x = Rabs x.
+Proof.
+  unfold absF. cbn [ltb zero opp NumR]. unfold Rltb. destruct (Rlt_dec x 0).
+  - now rewrite Rabs_left. - rewrite Rabs_right; [reflexivity | lra].
+Qed.
+Lemma svdtf_flip_m1 U Vh : mdet3 (mmul3 U Vh) = -1 -> svdtf_flip U Vh = true.
+Proof.
+  intros H. unfold svdtf_flip. rewrite absF_R, H. cbn [add one ltb NumR]. apply Rltb_true.
+  replace (-1 + 1) with 0 by ring. rewrite Rabs_R0. unfold det_tol, frac. cbn [div ofZ NumR]. lra.
+Qed.
+Lemma svdtf_flip_p1 U Vh : mdet3 (mmul3 U Vh) = 1 -> svdtf_flip U Vh = false.
+Proof.
+  intros H. unfold svdtf_flip. rewrite absF_R, H. cbn [add one ltb NumR]. apply Rltb_false.
+  rewrite Rabs_right by lra. unfold det_tol, frac. cbn [div ofZ NumR]. lra.
+Qed.
+Lemma svdtf_rot_cases U Vh : orth U -> orth Vh ->
+  (mdet3 (mmul3 U Vh) = 1 /\ svdtf_rot U Vh = mmul3 U Vh) \/
+  (mdet3 (mmul3 U Vh) = -1 /\ svdtf_rot U Vh = mneg3 (mmul3 U Vh)).
+Proof.
+  intros HU HV. destruct (orth_det_cases _ (orth_mmul3 _ _ HU HV)) as [Hd | Hd]; [left | right];
+    (split; [exact Hd|]); unfold svdtf_rot.
+  - now rewrite (svdtf_flip_p1 _ _ Hd).
+  - now rewrite (svdtf_flip_m1 _ _ Hd).
+Qed.
+(* the rotation svdtf hands to mat2SE3 is a proper rotation for every oracle answer *)
+Lemma svdtf_proper U Vh : orth U -> orth Vh -> rot (svdtf_rot U Vh).
+Proof.
+  intros HU HV. pose proof (orth_mmul3 _ _ HU HV) as HO.
+  destruct (svdtf_rot_cases U Vh HU HV) as [[Hd ->] | [Hd ->]].
+  - split; assumption.
+  - split; [now apply orth_mneg3 | rewrite mdet3_mneg3; lra].
+Qed.
+Lemma kabsch_rot_p1 U Vh : mdet3 (mmul3 U Vh) = 1 -> kabsch_rot U Vh = mmul3 U Vh.
+Proof.
+  intros H. unfold kabsch_rot. rewrite H. cbn [one NumR].
+  replace (diag3 (1, 1, 1)) with (mid3 (F:=R)) by al_ring. now rewrite mmul3_id_r.
+Qed.
+
+(* ---------------------------------------------------------------- residual decomposition *)
+Definition sumsq (l : cloudR) : R := sumF (map sqnorm l).
+Definition sumsqA (A : mat3R) (l : cloudR) : R := sumF (map (fun p => sqnorm (mvmul A p)) l).
+Definition shift (c : vec3R) (l : cloudR) : cloudR := map (fun p => vadd p c) l.
+Definition eoff (A : mat3R) (t cs ct : vec3R) : vec3R := vsub (vsub ct (mvmul A cs)) t.
+
+Lemma resid_shift A t cs ct : forall X Y, length X = length Y ->
+  resid (rigid_apply A t) (shift cs X) (shift ct Y) =
+  sumsq Y + sumsqA A X - 2 * dotM A (crosscov Y X)
+  + 2 * vdot (eoff A t cs ct) (vsub (vsum3 Y) (mvmul A (vsum3 X)))
+  + INR (length X) * sqnorm (eoff A t cs ct).
+Proof.
+  induction X as [|x X IH]; intros [|y Y] HL; try discriminate.
+  - cbn. unfold dotM, eoff. al_unfold. ring.
+  - injection HL as HL. specialize (IH Y HL).
+    cbn [shift map resid]. cbn [add NumR]. fold (shift cs X) (shift ct Y). rewrite IH. clear IH.
+    unfold sumsq, sumsqA, sumF. cbn [map fold_right length crosscov vsum3]. rewrite S_INR.
+    fold (vsum3 X) (vsum3 Y).
+    set (SX := vsum3 X). set (SY := vsum3 Y). set (C := crosscov Y X).
+    set (a := fold_right add zero (map sqnorm Y)). set (b := fold_right add zero (map (fun p => sqnorm (mvmul A p)) X)).
+    set (n := INR (length X)).
+    clearbody SX SY C a b n. clear. unfold dotM, eoff. al_ring.
+Qed.
+
+Lemma shift_centered (l : cloudR) : shift (centroid l) (centered l) = l.
+Proof.
+  unfold shift, centered. rewrite map_map. rewrite <- (map_id l) at 2. apply map_ext.
+  intros p. al_ring.
+Qed.
+Lemma vsum3_map_sub (c : vec3R) (l : cloudR) :
+  vsum3 (map (fun p => vsub p c) l) = vsub (vsum3 l) (vscale (INR (length l)) c).
+Proof.
+  induction l as [|p l IH].
+  - cbn. al_ring.
+  - cbn [map vsum3 fold_right length]. fold (vsum3 (map (fun p => vsub p c) l)). rewrite IH, S_INR.
+    fold (vsum3 l). set (s := vsum3 l). set (n := INR (length l)). clearbody s n. al_ring.
+Qed.
+Lemma ofN_INR n : ofN (F:=R) n = INR n.
+Proof. unfold ofN. cbn [ofZ NumR]. now rewrite <- INR_IZR_INZ. Qed.
+Lemma vsum3_centered (l : cloudR) : l <> [] -> vsum3 (centered l) = vzero.
+Proof.
+  intros Hne. unfold centered. rewrite vsum3_map_sub. unfold centroid. rewrite ofN_INR.
+  assert (Hn : INR (length l) <> 0).
+  { apply not_0_INR. destruct l; [contradiction | discriminate]. }
+  set (s := vsum3 l). set (n := INR (length l)) in *. clearbody s n.
+  destruct_tuples. al_unfold. split_pairs; field; exact Hn.
+Qed.
+Lemma length_centered (l : cloudR) : length (centered l) = length l.
+Proof. unfold centered. apply map_length. Qed.
+
+Lemma sqnorm_orth A p : orth A -> sqnorm (mvmul A p) = sqnorm p.
+Proof.
+  intros H. apply orth_left in H.
+  assert (E : sqnorm (mvmul A p) = vdot p (mvmul (mmul3 (mtrans A) A) p)) by al_ring.
+  rewrite E, H. al_ring.
+Qed.
+Lemma sumsqA_orth A X : orth A -> sumsqA A X = sumsq X.
+Proof.
+  intros H. unfold sumsqA, sumsq. f_equal. apply map_ext. intros p. now apply sqnorm_orth.
+Qed.
+Lemma sumsqA_mscale3 c A X : sumsqA (mscale3 c A) X = c * c * sumsqA A X.
+Proof.
+  unfold sumsqA, sumF. induction X as [|x X IH].
+  - cbn. ring.
+  - cbn [map fold_right]. rewrite IH.
+    set (b := fold_right add zero (map (fun p => sqnorm (mvmul A p)) X)). clearbody b. al_ring.
+Qed.
+
+Lemma sizes_ok_spec (src tgt : cloudR) : sizes_ok src tgt = true -> length src = length tgt /\ src <> [] /\ tgt <> [].
+Proof.
+  unfold sizes_ok. intros H. apply andb_prop in H as [H1 H2]. apply Nat.eqb_eq in H1.
+  apply negb_true_iff, Nat.eqb_neq in H2. split; [exact H1|].
+  split; intros ->; [apply H2; reflexivity | apply H2; rewrite H1; reflexivity].
+Qed.
+
+(* for any linear map A and translation t *)
+Lemma resid_general A t (src tgt : cloudR) : sizes_ok src tgt = true ->
+  resid (rigid_apply A t) src tgt =
+  sumsq (centered tgt) + sumsqA A (centered src) - 2 * dotM A (svdtf_M src tgt)
+  + INR (length src) * sqnorm (eoff A t (centroid src) (centroid tgt)).
+Proof.
+  intros Hs. apply sizes_ok_spec in Hs as (HL & Hs & Ht).
+  rewrite <- (shift_centered src) at 1. rewrite <- (shift_centered tgt) at 1.
+  rewrite resid_shift by (rewrite !length_centered; exact HL).
+  rewrite (vsum3_centered src Hs), (vsum3_centered tgt Ht), length_centered. unfold svdtf_M.
+  set (e := eoff A t (centroid src) (centroid tgt)). clearbody e.
+  assert (E : vdot e (vsub vzero (mvmul A vzero)) = 0) by al_ring. rewrite E. ring.
+Qed.
+Lemma eoff_opt A cs ct : eoff A (vsub ct (mvmul A cs)) cs ct = vzero.
+Proof. unfold eoff. al_ring. Qed.
+Lemma sqnorm_nonneg (p : vec3R) : 0 <= sqnorm p.
+Proof. destruct_tuples. al_unfold. nra. Qed.
+Lemma sqnorm_vzero : sqnorm (vzero (F:=R)) = 0.
+Proof. al_ring. Qed.
+
+(* ---------------------------------------------------------------- Kabsch optimality *)
+Theorem kabsch_optimal (src tgt : cloudR) U S Vh :
+  sizes_ok src tgt = true -> svd_ok (svdtf_M src tgt) U S Vh ->
+  rot (fst (kabsch_mat src tgt U Vh)) /\
+  forall A t, rot A ->
+    resid (rigid_apply (fst (kabsch_mat src tgt U Vh)) (snd (kabsch_mat src tgt U Vh))) src tgt
+    <= resid (rigid_apply A t) src tgt.
+Proof.
+  intros Hs Hsvd. pose proof Hsvd as (HU & HV & _ & _).
+  pose proof (kabsch_rot_rot U Vh HU HV) as HR. cbn [kabsch_mat fst snd]. split; [exact HR|].
+  intros A t HA. rewrite !resid_general by exact Hs.
+  rewrite eoff_opt, sqnorm_vzero, Rmult_0_r.
+  rewrite (sumsqA_orth _ _ (proj1 HR)), (sumsqA_orth _ _ (proj1 HA)).
+  pose proof (kabsch_trace_optimal _ U S Vh A Hsvd HA) as Hk.
+  pose proof (sqnorm_nonneg (eoff A t (centroid src) (centroid tgt))) as He.
+  pose proof (pos_INR (length src)) as Hn.
+  pose proof (Rmult_le_pos _ _ Hn He). lra.
+Qed.
+
+(* ---------------------------------------------------------------- svdtf on the faithful model *)
+(* without the reflection branch svdtf is Kabsch *)
+Lemma svdtf_mat_p1 (src tgt : cloudR) U Vh : orth U -> orth Vh -> mdet3 (mmul3 U Vh) = 1 ->
+  svdtf_mat src tgt U Vh = kabsch_mat src tgt U Vh.
+Proof.
+  intros HU HV Hd. unfold svdtf_mat, kabsch_mat, svdtf_rot.
+  now rewrite (svdtf_flip_p1 _ _ Hd), (kabsch_rot_p1 _ _ Hd).
+Qed.
+Theorem svdtf_optimal_partial (src tgt : cloudR) U S Vh :
+  sizes_ok src tgt = true -> svd_ok (svdtf_M src tgt) U S Vh -> mdet3 (mmul3 U Vh) = 1 ->
+  forall A t, rot A ->
+    resid (rigid_apply (fst (svdtf_mat src tgt U Vh)) (snd (svdtf_mat src tgt U Vh))) src tgt
+    <= resid (rigid_apply A t) src tgt.
+Proof.
+  intros Hs Hsvd Hd. pose proof Hsvd as (HU & HV & _ & _).
+  rewrite (svdtf_mat_p1 src tgt U Vh HU HV Hd). apply (kabsch_optimal src tgt U S Vh Hs Hsvd).
+Qed.
+
+(* in the reflection branch svdtf returns - U Vh, whose <R, M> is the MINIMUM over all rotations *)
+Lemma neg_UVh_trace M U S Vh : svd_ok M U S Vh ->
+  dotM (mneg3 (mmul3 U Vh)) M = - (vx S + vy S + vz S).
+Proof.
+  intros (HU & HV & _ & HM). subst M. rewrite dotM_mneg3, dotM_svd. f_equal.
+  rewrite mtrans_mmul3, <- (mmul3_assoc Vh). unfold orth in HV. rewrite HV, mmul3_id_l.
+  rewrite (orth_left U HU). unfold wtrace. al_ring.
+Qed.
+Theorem svdtf_reflection_pessimal (src tgt : cloudR) U S Vh :
+  sizes_ok src tgt = true -> svd_ok (svdtf_M src tgt) U S Vh -> mdet3 (mmul3 U Vh) = -1 ->
+  forall A, rot A ->
+    resid (rigid_apply A (vsub (centroid tgt) (mvmul A (centroid src)))) src tgt
+    <= resid (rigid_apply (fst (svdtf_mat src tgt U Vh)) (snd (svdtf_mat src tgt U Vh))) src tgt.
+Proof.
+  intros Hs Hsvd Hd A HA. pose proof Hsvd as (HU & HV & (H1 & H2 & H3) & HM).
+  pose proof (svdtf_proper U Vh HU HV) as HR.
+  unfold svdtf_mat in *. cbn [fst snd]. rewrite !resid_general by exact Hs.
+  rewrite !eoff_opt, sqnorm_vzero, Rmult_0_r.
+  rewrite (sumsqA_orth _ _ (proj1 HR)), (sumsqA_orth _ _ (proj1 HA)).
+  unfold svdtf_rot. rewrite (svdtf_flip_m1 _ _ Hd), (neg_UVh_trace _ U S Vh Hsvd).
+  rewrite HM at 1. rewrite dotM_svd.
+  assert (HQ : orth (mmul3 (mmul3 Vh (mtrans A)) U)).
+  { apply orth_mmul3; [apply orth_mmul3; [exact HV | apply orth_mtrans, HA] | exact HU]. }
+  pose proof (wtrace_lower S _ HQ H1 H2 H3). lra.
+Qed.
+
+(* ---------------------------------------------------------------- exact recovery *)
+Lemma resid_nonneg (f : vec3R -> vec3R) : forall src tgt, 0 <= resid f src tgt.
+Proof.
+  induction src as [|p src IH]; intros [|q tgt]; cbn [resid]; try (cbn; lra).
+  pose proof (sqnorm_nonneg (vsub q (f p))). specialize (IH tgt). cbn [add NumR]. lra.
+Qed.
+Lemma sqnorm_zero (p : vec3R) : sqnorm p = 0 -> p = vzero.
+Proof.
+  destruct p as [[x y] z]. al_unfold. intros H.
+  assert (x = 0) by nra. assert (y = 0) by nra. assert (z = 0) by nra. subst. reflexivity.
+Qed.
+Lemma vsub_zero (a b : vec3R) : vsub a b = vzero -> b = a.
+Proof.
+  destruct a as [[a1 a2] a3], b as [[b1 b2] b3]. al_unfold. intros H. injection H as H1 H2 H3.
+  split_pairs; lra.
+Qed.
+Lemma resid_zero (f : vec3R -> vec3R) : forall src tgt, length src = length tgt ->
+  resid f src tgt = 0 -> Forall2 (fun p q => f p = q) src tgt.
+Proof.
+  induction src as [|p src IH]; intros [|q tgt] HL H0; try discriminate; [constructor|].
+  injection HL as HL. cbn [resid] in H0. cbn [add NumR] in H0.
+  pose proof (sqnorm_nonneg (vsub q (f p))). pose proof (resid_nonneg f src tgt).
+  constructor.
+  - apply vsub_zero, sqnorm_zero. lra.
+  - apply IH; [exact HL | lra].
+Qed.
+Lemma resid_self (f : vec3R -> vec3R) : forall src, resid f src (map f src) = 0.
+Proof.
+  induction src as [|p src IH]; [reflexivity|]. cbn [map resid]. rewrite IH. cbn [add NumR].
+  assert (E : sqnorm (vsub (f p) (f p)) = 0) by (generalize (f p); intros v; al_ring). rewrite E. ring.
+Qed.
+Theorem kabsch_exact_recovery (src tgt : cloudR) U S Vh A0 t0 :
+  tgt = map (rigid_apply A0 t0) src ->
+  src <> [] -> rot A0 -> svd_ok (svdtf_M src tgt) U S Vh ->
+  Forall2 (fun p q => rigid_apply (fst (kabsch_mat src tgt U Vh)) (snd (kabsch_mat src tgt U Vh)) p = q) src tgt.
+Proof.
+  intros Htgt Hne HA Hsvd.
+  assert (HL : length src = length tgt) by (rewrite Htgt; now rewrite map_length).
+  assert (Hs : sizes_ok src tgt = true).
+  { unfold sizes_ok. rewrite <- HL, Nat.eqb_refl. destruct src; [contradiction | reflexivity]. }
+  assert (H0 : resid (rigid_apply A0 t0) src tgt = 0) by (rewrite Htgt; apply resid_self).
+  apply resid_zero; [exact HL|].
+  pose proof (proj2 (kabsch_optimal src tgt U S Vh Hs Hsvd) A0 t0 HA) as Hle.
+  rewrite H0 in Hle.
+  pose proof (resid_nonneg (rigid_apply (fst (kabsch_mat src tgt U Vh)) (snd (kabsch_mat src tgt U Vh))) src tgt).
+  lra.
+Qed.
+Theorem svdtf_exact_recovery_partial (src tgt : cloudR) U S Vh A0 t0 :
+  tgt = map (rigid_apply A0 t0) src ->
+  src <> [] -> rot A0 -> svd_ok (svdtf_M src tgt) U S Vh -> mdet3 (mmul3 U Vh) = 1 ->
+  Forall2 (fun p q => rigid_apply (fst (svdtf_mat src tgt U Vh)) (snd (svdtf_mat src tgt U Vh)) p = q) src tgt.
+Proof.
+  intros Htgt Hne HA Hsvd Hd. pose proof Hsvd as (HU & HV & _ & _).
+  rewrite (svdtf_mat_p1 src tgt U Vh HU HV Hd). now apply (kabsch_exact_recovery src tgt U S Vh A0 t0).
+Qed.
+
+(* ---------------------------------------------------------------- refutation witness *)
+(* three coplanar points, target = source (the true transform is the identity); the SVD
+   U = I, S = (6,2,0), Vh = diag(1,1,-1) satisfies the contract (the sign of the third singular
+   vectors is arbitrary because s3 = 0); svdtf returns the half turn about z: residual 32 > 0 *)
+Definition wit_src : cloudR := [(2, 0, 0); (-1, 1, 0); (-1, -1, 0)].
+Definition wit_U : mat3R := mid3.
+Definition wit_S : vec3R := (6, 2, 0).
+Definition wit_Vh : mat3R := ((1, 0, 0), (0, 1, 0), (0, 0, -1)).
+Lemma wit_contract : sizes_ok wit_src wit_src = true /\ svd_ok (svdtf_M wit_src wit_src) wit_U wit_S wit_Vh.
+Proof.
+  split; [reflexivity|]. unfold svd_ok. split; [apply orth_mid3|].
+  split; [unfold wit_Vh; al_unfold; split_pairs; ring|].
+  split; [unfold wit_S; al_unfold; lra|].
+  unfold svdtf_M, wit_src, centered, wit_U, wit_S, wit_Vh.
+  cbv [map crosscov length centroid vsum3 fold_right ofN Z.of_nat Pos.of_succ_nat Pos.succ vdivs].
+  al_unfold. split_pairs; field.
+Qed.
+Lemma wit_rot : svdtf_rot wit_U wit_Vh = ((-1, 0, 0), (0, -1, 0), (0, 0, 1)).
+Proof.
+  assert (Hd : mdet3 (mmul3 wit_U wit_Vh) = -1) by (unfold wit_U, wit_Vh; al_ring).
+  unfold svdtf_rot. rewrite (svdtf_flip_m1 _ _ Hd). unfold wit_U, wit_Vh. al_ring.
+Qed.
+Theorem svdtf_refuted :
+  exists (src tgt : cloudR) U S Vh A t,
+    sizes_ok src tgt = true /\ svd_ok (svdtf_M src tgt) U S Vh /\ rot A /\
+    resid (rigid_apply A t) src tgt = 0 /\
+    resid (rigid_apply (fst (svdtf_mat src tgt U Vh)) (snd (svdtf_mat src tgt U Vh))) src tgt = 32.
+Proof.
+  exists wit_src, wit_src, wit_U, wit_S, wit_Vh, mid3, vzero.
+  destruct wit_contract as [H1 H2]. split; [exact H1|]. split; [exact H2|]. split; [apply rot_mid3|].
+  split.
+  - unfold wit_src. cbn [resid]. al_unfold. ring.
+  - unfold svdtf_mat. cbn [fst snd]. rewrite wit_rot. unfold wit_src.
+    cbv [resid length centroid vsum3 fold_right ofN Z.of_nat Pos.of_succ_nat Pos.succ vdivs].
+    al_unfold. field.
+Qed.
+
+(* ---------------------------------------------------------------- svdstf (Umeyama) *)
+Lemma signF_pm1 (d : R) : d = 1 \/ d = -1 -> signF d = d.
+Proof.
+  unfold signF. cbn [ltb zero one opp NumR]. unfold Rltb.
+  intros [-> | ->]; repeat (destruct (Rlt_dec _ _)); try lra.
+Qed.
+Lemma svdstf_rot_eq U V : orth U -> orth V -> svdstf_rot U V = kabsch_rot U V.
+Proof.
+  intros HU HV. unfold svdstf_rot, kabsch_rot, umeyama_sign.
+  now rewrite (signF_pm1 _ (orth_det_cases _ (orth_mmul3 _ _ HU HV))).
+Qed.
+Lemma svdstf_proper U V : orth U -> orth V -> rot (svdstf_rot U V).
+Proof. intros HU HV. rewrite svdstf_rot_eq by assumption. now apply kabsch_rot_rot. Qed.
+
+Lemma svdtf_M_H (src tgt : cloudR) : src <> [] ->
+  svdtf_M src tgt = mscale3 (INR (length src)) (svdstf_H src tgt).
+Proof.
+  intros Hne. unfold svdtf_M, svdstf_H. rewrite ofN_INR.
+  assert (Hn : INR (length src) <> 0) by (apply not_0_INR; destruct src; [contradiction | discriminate]).
+  set (C := crosscov (centered tgt) (centered src)). set (n := INR (length src)) in *. clearbody C n.
+  destruct_tuples. al_unfold. split_pairs; field; exact Hn.
+Qed.
+Lemma var_source_eq (src : cloudR) : var_source src = sumsq (centered src) / INR (length src).
+Proof. unfold var_source, meanF, sumsq. now rewrite map_length, length_centered, ofN_INR. Qed.
+
+Lemma resid_sim c A t (src tgt : cloudR) : sizes_ok src tgt = true -> orth A ->
+  resid (sim_apply c A t) src tgt =
+  sumsq (centered tgt) + c * c * sumsq (centered src)
+  - 2 * c * INR (length src) * dotM A (svdstf_H src tgt)
+  + INR (length src) * sqnorm (eoff (mscale3 c A) t (centroid src) (centroid tgt)).
+Proof.
+  intros Hs HA. change (sim_apply c A t) with (rigid_apply (mscale3 c A) t).
+  rewrite resid_general by exact Hs. rewrite sumsqA_mscale3, (sumsqA_orth _ _ HA).
+  rewrite (svdtf_M_H src tgt) by (apply sizes_ok_spec in Hs; tauto).
+  rewrite dotM_mscale3, dotM_mscale3_r. ring.
+Qed.
+
+Lemma umeyama_value H U D V : svd_ok H U D V ->
+  vdot (umeyama_sign U V) D = dotM (kabsch_rot U V) H /\ 0 <= vdot (umeyama_sign U V) D.
+Proof.
+  intros Hsvd. pose proof Hsvd as (HU & HV & (H1 & H2 & H3) & _).
+  rewrite (kabsch_trace_value H U D V Hsvd). unfold umeyama_sign.
+  pose proof (orth_det_cases _ (orth_mmul3 _ _ HU HV)) as Hd. rewrite (signF_pm1 _ Hd).
+  destruct D as [[d1 d2] d3]. al_unfold. destruct Hd as [-> | ->]; split; lra.
+Qed.
+
+Theorem svdstf_optimal (src tgt : cloudR) U D V :
+  sizes_ok src tgt = true -> svd_ok (svdstf_H src tgt) U D V -> 0 < sumsq (centered src) ->
+  let s := fst (fst (svdstf_mat true src tgt U D V)) in
+  let Rs := snd (fst (svdstf_mat true src tgt U D V)) in
+  let ts := snd (svdstf_mat true src tgt U D V) in
+  rot Rs /\ 0 <= s /\
+  forall c A t, 0 <= c -> rot A ->
+    resid (sim_apply s Rs ts) src tgt <= resid (sim_apply c A t) src tgt.
+Proof.
+  intros Hs Hsvd Hx. pose proof Hsvd as (HU & HV & _ & _).
+  cbn [svdstf_mat fst snd]. cbv zeta.
+  pose proof (svdstf_proper U V HU HV) as HR.
+  pose proof (umeyama_value _ U D V Hsvd) as [Hval Hpos].
+  pose proof (sizes_ok_spec _ _ Hs) as (HL & Hne & _).
+  assert (Hn : 0 < INR (length src)) by (apply lt_0_INR; destruct src; [contradiction | cbn; lia]).
+  remember (INR (length src)) as N eqn:EN.
+  assert (Hsc : svdstf_scale true src U V D * sumsq (centered src) = N * dotM (kabsch_rot U V) (svdstf_H src tgt)).
+  { unfold svdstf_scale. rewrite var_source_eq, Hval. cbn [div NumR]. rewrite <- EN. field. split; lra. }
+  assert (Hs0 : 0 <= svdstf_scale true src U V D).
+  { unfold svdstf_scale. rewrite var_source_eq. cbn [div NumR]. rewrite <- EN.
+    apply Rmult_le_pos; [exact Hpos|]. apply Rlt_le, Rinv_0_lt_compat. apply Rdiv_lt_0_compat; lra. }
+  split; [exact HR|]. split; [exact Hs0|].
+  intros c A t Hc HA. rewrite !resid_sim by (try exact Hs; try apply HR; apply HA). rewrite <- EN.
+  rewrite eoff_opt, sqnorm_vzero, Rmult_0_r.
+  rewrite svdstf_rot_eq by assumption.
+  pose proof (kabsch_trace_optimal _ U D V A Hsvd HA) as Hk.
+  pose proof (sqnorm_nonneg (eoff (mscale3 c A) t (centroid src) (centroid tgt))) as He0.
+  remember (svdstf_scale true src U V D) as s eqn:Es. remember (sumsq (centered src)) as sx eqn:Esx.
+  remember (dotM (kabsch_rot U V) (svdstf_H src tgt)) as TH eqn:ETH.
+  remember (dotM A (svdstf_H src tgt)) as dA eqn:EdA.
+  remember (sqnorm (eoff (mscale3 c A) t (centroid src) (centroid tgt))) as e2 eqn:Ee2.
+  assert (He : 0 <= N * e2) by (apply Rmult_le_pos; [clear - Hn; lra | exact He0]).
+  assert (H1 : c * N * dA <= c * N * TH).
+  { rewrite !Rmult_assoc. apply Rmult_le_compat_l; [exact Hc|]. apply Rmult_le_compat_l; [clear - Hn; lra | exact Hk]. }
+  assert (Hsq : 0 <= sx * ((c - s) * (c - s))) by (apply Rmult_le_pos; [clear - Hx; lra | exact (Rle_0_sqr (c - s))]).
+  assert (E1 : s * N * TH = s * s * sx) by (rewrite Rmult_assoc, <- Hsc; ring).
+  assert (E2 : c * N * TH = c * s * sx) by (rewrite Rmult_assoc, <- Hsc; ring).
+  clear - He H1 Hsq E1 E2. nra.
+Qed.
+
+Theorem svdstf_noscale_optimal (src tgt : cloudR) U D V :
+  sizes_ok src tgt = true -> svd_ok (svdstf_H src tgt) U D V ->
+  let s := fst (fst (svdstf_mat false src tgt U D V)) in
+  let Rs := snd (fst (svdstf_mat false src tgt U D V)) in
+  let ts := snd (svdstf_mat false src tgt U D V) in
+  rot Rs /\ s = 1 /\
+  forall A t, rot A -> resid (sim_apply s Rs ts) src tgt <= resid (rigid_apply A t) src tgt.
+Proof.
+  intros Hs Hsvd. pose proof Hsvd as (HU & HV & _ & _).
+  cbn [svdstf_mat svdstf_scale fst snd]. cbv zeta.
+  pose proof (svdstf_proper U V HU HV) as HR. split; [exact HR|]. split; [reflexivity|].
+  intros A t HA.
+  assert (EA : rigid_apply A t = sim_apply 1 A t).
+  { unfold rigid_apply, sim_apply. replace (mscale3 1 A) with A by al_ring. reflexivity. }
+  rewrite EA. cbn [one NumR]. rewrite !resid_sim by (try exact Hs; try apply HR; apply HA).
+  rewrite eoff_opt, sqnorm_vzero, Rmult_0_r.
+  rewrite svdstf_rot_eq by assumption.
+  pose proof (kabsch_trace_optimal _ U D V A Hsvd HA) as Hk.
+  pose proof (sizes_ok_spec _ _ Hs) as (HL & Hne & _).
+  assert (Hn : 0 < INR (length src)) by (apply lt_0_INR; destruct src; [contradiction | cbn; lia]).
+  pose proof (sqnorm_nonneg (eoff (mscale3 1 A) t (centroid src) (centroid tgt))) as He.
+  pose proof (Rmult_le_pos _ _ (Rlt_le _ _ Hn) He).
+  pose proof (Rmult_le_compat_l _ _ _ (Rlt_le _ _ Hn) Hk). lra.
+Qed.
+
+(* exact similarity correspondences are reproduced point for point *)
+Theorem svdstf_exact_recovery (src tgt : cloudR) U D V c0 A0 t0 :
+  tgt = map (sim_apply c0 A0 t0) src -> 0 <= c0 -> rot A0 ->
+  svd_ok (svdstf_H src tgt) U D V -> 0 < sumsq (centered src) ->
+  Forall2 (fun p q => sim_apply (fst (fst (svdstf_mat true src tgt U D V)))
+                                (snd (fst (svdstf_mat true src tgt U D V)))
+                                (snd (svdstf_mat true src tgt U D V)) p = q) src tgt.
+Proof.
+  intros Htgt Hc HA Hsvd Hx.
+  assert (HL : length src = length tgt) by (rewrite Htgt; now rewrite map_length).
+  assert (Hne : src <> []).
+  { intros ->. cbn in Hx. lra. }
+  assert (Hs : sizes_ok src tgt = true).
+  { unfold sizes_ok. rewrite <- HL, Nat.eqb_refl. destruct src; [contradiction | reflexivity]. }
+  assert (H0 : resid (sim_apply c0 A0 t0) src tgt = 0) by (rewrite Htgt; apply resid_self).
+  apply resid_zero; [exact HL|].
+  pose proof (svdstf_optimal src tgt U D V Hs Hsvd Hx) as (_ & _ & Hopt).
+  specialize (Hopt c0 A0 t0 Hc HA). rewrite H0 in Hopt.
+  pose proof (resid_nonneg (sim_apply (fst (fst (svdstf_mat true src tgt U D V)))
+                                (snd (fst (svdstf_mat true src tgt U D V)))
+                                (snd (svdstf_mat true src tgt U D V))) src tgt).
+  lra.
+Qed.
+
+(* ---------------------------------------------------------------- EPnP: the linear system *)
+(* for exact projections the true camera-frame control points solve M x = 0 (both rows of every
+   point), whatever the barycentric weights are *)
+Lemma epnp_nullspace (a : vec4' (F:=R)) (c : ctrl (F:=R)) (fu fv u0 v0 : R) :
+  vz (ctrl_comb a c) <> 0 ->
+  dotl (epnp_row_u a fu u0 (fst (project fu fv u0 v0 (ctrl_comb a c)))) (ctrl_flat c) = 0 /\
+  dotl (epnp_row_v a fv v0 (snd (project fu fv u0 v0 (ctrl_comb a c)))) (ctrl_flat c) = 0.
+Proof.
+  destruct a as [[[a0 a1] a2] a3]. destruct c as [[[c0 c1] c2] c3].
+  destruct c0 as [[x0 y0] z0], c1 as [[x1 y1] z1], c2 as [[x2 y2] z2], c3 as [[x3 y3] z3].
+  cbv [ctrl_comb project epnp_row_u epnp_row_v ctrl_flat dotl fst snd]. al_unfold.
+  intros Hz. split; field; exact Hz.
+Qed.
+(* alpha reproduces the points in any frame: rigid motion of the control points moves the
+   combination along when the weights sum to one *)
+Lemma alpha_reproduces_points (a : vec4' (F:=R)) (c : ctrl (F:=R)) (A : mat3R) (t : vec3R) :
+  (let '(a0, a1, a2, a3) := a in a0 + a1 + a2 + a3 = 1) ->
+  ctrl_comb a (let '(c0, c1, c2, c3) := c in
+               (rigid_apply A t c0, rigid_apply A t c1, rigid_apply A t c2, rigid_apply A t c3))
+  = rigid_apply A t (ctrl_comb a c).
+Proof.
+  destruct a as [[[a0 a1] a2] a3]. destruct c as [[[c0 c1] c2] c3]. intros Ha.
+  assert (E : a3 = 1 - a0 - a1 - a2) by lra. subst a3. clear Ha.
+  destruct_tuples. cbv [ctrl_comb]. al_unfold. split_pairs; ring.
 Qed.
